@@ -27,6 +27,10 @@ def per_channel(s):
     ag = s.amplifier_gain(ix)
     dv = s.detector_voltage(ix)
     lb = s.channel_labels(ix)
+    lens = [len(x) for x in (rng_, res, at, ag, dv, lb)]
+    if any(l != n for l in lens):
+        # the views disagree about the number of channels: no per-column record can be formed (never equal to a model's)
+        return [('views-misaligned', n, tuple(lens))]
     for i in range(n):
         r = rng_[i]
         out.append((s.channels[i], None if r is None else [float(r[0]), float(r[1])], res[i], at[i], ag[i], dv[i], lb[i]))
